@@ -10,7 +10,7 @@ TRUSTED = ["the tables the theorems range over are regenerated from the imported
            "constructor with each DeviceType"]
 ASSUMPTIONS = ["the four device classes and their categories are fixed by name in Spec/Tables.v class_category"]
 RULE = ("exhaustive: all 36 (class, type) pairs, each constructor called under both device states and varied other fields, all 65536 two-byte model codes through the broadcast parser (a type exactly for the nine codes of the protocol), all 9 types (code, protocol, category), all 4 categories in both port "
-        "tables; each compared with the regenerated Coq table and judged against the property, once at import and once after a bridge heard every family on ports of its own and both API classes ran an operation; non-trivial = distinct table rows")
+        "tables; each compared with the regenerated Coq table and judged against the property, in a fresh interpreter whose environment names the modules' constants, once at import and once after a bridge heard every family on ports of its own and both API classes ran an operation; non-trivial = distinct table rows")
 REQUIREMENT = ("class accepts type iff same category; model codes unique 4-hex-digit; protocol 1 -> UDP 20002 / TCP 9957, protocol 2 -> "
                "UDP 20003 / TCP 10000; every category present in both port tables")
 CLASS_CAT = {"SwitcherPowerPlug": "POWER_PLUG", "SwitcherWaterHeater": "WATER_HEATER", "SwitcherThermostat": "THERMOSTAT", "SwitcherShutter": "SHUTTER"}
@@ -37,6 +37,21 @@ def construct(cn, t):
         except ValueError: r = "refused"
         except Exception as e: r = "raised " + type(e).__name__
         seen.setdefault(r, b)
+    # a type of another category stays refused whatever else the caller adds to the call (an extra positional or keyword argument
+    # is a TypeError today; were it accepted, it must not open the class to foreign types)
+    own = t.category.name == CLASS_CAT[cn]
+    if not own and seen == {"refused": seen.get("refused")}:
+        b = next(variants()); tail = {"SwitcherPowerPlug": (0, 0.0), "SwitcherWaterHeater": (0, 0.0, "00:00:00", "00:00:00"),
+                                      "SwitcherThermostat": (device.ThermostatMode.COOL, 21.5, 24, device.ThermostatFanLevel.LOW, device.ThermostatSwing.OFF, "ELEC7022"),
+                                      "SwitcherShutter": (0, device.ShutterDirection.SHUTTER_STOP)}[cn]
+        cls = getattr(device, cn)
+        for extra in list(DeviceCategory) + [None, True, t.category.name]:
+            for how in ("positional", "category", "device_category"):
+                try:
+                    cls(t, *b, *tail, extra) if how == "positional" else cls(t, *b, *tail, **{how: extra})
+                    seen.setdefault("accepted", b); DETAIL[(cn, t.name)] = "accepted with an extra %s argument %r" % (how, extra)
+                except (TypeError, ValueError): pass
+                except Exception: pass
     if len(seen) == 1: return next(iter(seen))
     DETAIL[(cn, t.name)] = "; ".join("%s with state %s name %r" % (r, b[0].name, b[5]) for r, b in sorted(seen.items()))
     return "depends on the other fields"
@@ -88,7 +103,33 @@ def codes_sweep(out):
     lib.differential(out, "model-codes-that-name-a-type", cases, io, mo, ex, lambda c: "broadcast model code %s" % c["code"], sample=lambda c: c)
 
 
+def environment(out):
+    """the tables do not depend on the process environment: a fresh interpreter whose environment names every numeric constant of the
+    two modules (as SWITCHER_* style variables, each set to its own documented value) reads the same tables"""
+    import subprocess, sys, json
+    consts = {}
+    for mod in (api, bridge):
+        for n in dir(mod):
+            v = getattr(mod, n)
+            if n.isupper() and isinstance(v, int) and not isinstance(v, bool): consts[n] = v
+    code = ("import json, aioswitcher.api as a, aioswitcher.bridge as b\n"
+            "print(json.dumps({'tcp': {k.name: v for k, v in a.SWITCHER_DEVICE_TO_TCP_PORT.items()}, 'udp': {k.name: v for k, v in b.SWITCHER_DEVICE_TO_UDP_PORT.items()}}))")
+    want = {"tcp": {c.name: api.SWITCHER_DEVICE_TO_TCP_PORT.get(c) for c in DeviceCategory}, "udp": {c.name: bridge.SWITCHER_DEVICE_TO_UDP_PORT.get(c) for c in DeviceCategory}}
+    envs = [("every constant named in the environment with its own value", {n: str(v) for n, v in consts.items()}),
+            ("only the type-1 constants named", {n: str(v) for n, v in consts.items() if "TYPE1" in n}),
+            ("unrelated variables", {"SWITCHER": "1", "PORT": "1", "TZ": "Asia/Kathmandu", "LANG": "tr_TR.UTF-8"})]
+    io = []
+    for _, extra in envs:
+        env = dict(os.environ, PYTHONPATH=lib.REPO_SRC, **extra)
+        p = subprocess.run([sys.executable, "-c", code], capture_output=True, text=True, env=env, timeout=120)
+        try: io.append(json.dumps(json.loads(p.stdout), sort_keys=True))
+        except Exception: io.append("import failed: " + p.stderr.strip()[-200:])
+    lib.differential(out, "tables-in-a-fresh-interpreter-under-other-environments", [{"environment": n} for n, _ in envs], io, None,
+                     [json.dumps(want, sort_keys=True)] * len(envs), lambda c: "port tables with " + c["environment"], sample=lambda c: c)
+
+
 def run(tier, rnd, out):
+    environment(out)
     codes_sweep(out)
     tables(out, "")
     exercise()
